@@ -201,8 +201,45 @@ impl Out {
     }
 }
 
+/// CaDiCaL behind a call counter: a query that keeps calling the solver (a diverging search) is
+/// turned into a panic after LIMIT calls on one solver object instead of hanging the check
+pub struct Limited<S: crustabri::sat::SatSolver> {
+    pub inner: S,
+    pub calls: usize,
+    pub limit: usize,
+}
+
+pub type LimitedCadical = Limited<CadicalSolver>;
+
+pub const CADICAL_CALL_LIMIT: usize = 20_000;
+
+impl<S: crustabri::sat::SatSolver> crustabri::sat::SatSolver for Limited<S> {
+    fn add_clause(&mut self, cl: Vec<crustabri::sat::Literal>) {
+        self.inner.add_clause(cl)
+    }
+    fn solve(&mut self) -> crustabri::sat::SolvingResult {
+        self.solve_under_assumptions(&[])
+    }
+    fn solve_under_assumptions(&mut self, a: &[crustabri::sat::Literal]) -> crustabri::sat::SolvingResult {
+        self.calls += 1;
+        if self.calls > self.limit {
+            panic!("{}: more than {} SAT calls on one solver object (diverging search)", crate::choicesat::CALL_LIMIT_MARK, self.limit);
+        }
+        self.inner.solve_under_assumptions(a)
+    }
+    fn n_vars(&self) -> usize {
+        self.inner.n_vars()
+    }
+    fn add_listener(&mut self, l: Box<dyn crustabri::sat::SolvingListener>) {
+        self.inner.add_listener(l)
+    }
+    fn reserve(&mut self, n: usize) {
+        self.inner.reserve(n)
+    }
+}
+
 pub fn cadical_factory() -> Box<SatSolverFactoryFn> {
-    Box::new(|| Box::<CadicalSolver>::default())
+    Box::new(|| Box::new(Limited { inner: CadicalSolver::default(), calls: 0, limit: CADICAL_CALL_LIMIT }))
 }
 
 /// Solver objects, dispatched exactly as `crustabri solve` does.
